@@ -90,6 +90,12 @@ def run(ctx):
         a, c, r = s["impl"], s["case"], s["routing"]
         nl, D, n = r["L"], c["D"], len(c["edges"])
         x_b, xpre_b, utr_b, vtr_b = S.feynman_from_log(a)
+        # after the common rescaling the tropical polynomials are 1: that is what the RETURNED u_trop, v_trop say (the pre-rescaling values
+        # are only logged)
+        if a.get("status") == "ok" and (a.get("uTrop") != f2b(1.0) or a.get("vTrop") != f2b(1.0)):
+            ctx.violation("the sample returns u_trop, v_trop different from 1 although the parameters it used are rescaled so that U_tr^(D/2) V_tr^dod = 1 "
+                          "with both tropical polynomials normalised", S.small_req(s), expected=[f2b(1.0), f2b(1.0)], observed=[a.get("uTrop"), a.get("vTrop")])
+            continue
         order = None
         if xpre_b and SC.finite(xpre_b):
             xp = [b2f(b) for b in xpre_b]
